@@ -18,8 +18,13 @@ def handle (toks : List String) (impl : Option String) : Option (String × Strin
     | none => "nospec"
     | some a =>
       match toks with
-      | ["load.any", arch, _src, _target, _ovf, _mis, _hex] =>
-        if a.startsWith "ok" || a.startsWith "exc:" then
+      | ["load.any", arch, _src, target, _ovf, _mis, _hex] =>
+        if (a.splitOn " ").contains "BIGALLOC" then
+          -- one allocation request out of proportion to the document: recorded only for container targets pre-sized from a MsgPack
+          -- array / map header; anything else (a string or binary length trusted before the data arrives, …) is a violation
+          (if arch == "mp" && ["vi", "vs", "vvi", "msi", "outer", "vouter", "rows", "a4", "ca4"].contains target
+           then "known:msgpack-header-preallocation" else "bad:allocation_out_of_proportion_to_the_input")
+        else if a.startsWith "ok" || a.startsWith "exc:" then
           (if arch == "mp" && (a == "exc:bad_alloc" || a == "exc:length_error") then "known:msgpack-header-preallocation" else "ok")
         else if arch == "mp" && a == "crash:asan:stack-overflow" then "known:msgpack-deep-nesting-recursion"
         else if arch == "mp" && (a == "crash:asan:allocation-size-too-big" || a == "crash:asan:out-of-memory") then
